@@ -5,7 +5,8 @@ crate) and unit `dispatch` (analyze_for_*: the set of lines returned is exactly 
 pattern's detector }, pt's Loc::start under contract). Which node's location a detector reports is part of the proved
 postconditions of the detector units (loc_P, checked by C05-C07, C09).
 Bounded: native `c02` (get_line_number exhaustive on short texts; analyze_for_* line sets on programs x layouts) and
-`c02-loc` (the detector reports the location of the construct named in DESIGN §8, not of a sub-node)."""
+`c02-loc` (the detector reports the location of the construct named in DESIGN §8, not of a sub-node), and the class
+`wrong-line-set` of the directory check `c03` (the lines analyze_dir reports for a file are those of the per-file analysis)."""
 from .. import driver as D
 from . import bounded
 
@@ -22,6 +23,8 @@ BOUNDED_PART = ["which construct's location each detector reports, for the detec
 
 
 def key_to_functions(key):
+    if key.startswith("c02:c03"):
+        return []
     if key.startswith("c02:analyze_for"):
         return ["analyze_for_optimization", "analyze_for_vulnerability", "analyze_for_qa", "start"]
     if key.startswith("c02-loc") or key.startswith("c02loc"):
@@ -39,10 +42,15 @@ def run(tier, seed):
         return vd.finish({"level": "exploration", "coverage": {"evaluations": 1, "distinct_nontrivial": 2, "rule": "native harness did not build", "samples": ["-"]}})
     nat = D.run_native(binary, "c02", tier, seed)
     nloc = D.run_native(binary, "c02-loc", tier, seed)
-    both = {"violations": list(nat.get("violations", [])) + list(nloc.get("violations", []))}
+    # lines reported through analyze_dir: the directory check's class "a file's line set differs from the per-file analysis"
+    ndir = D.run_native(binary, "c03", tier, seed)
+    dir_v = [dict(v, key="c02:" + v["key"], what="through analyze_dir: " + v["what"]) for v in ndir.get("violations", []) if "wrong-line-set" in v["key"]]
+    both = {"violations": list(nat.get("violations", [])) + list(nloc.get("violations", [])) + dir_v}
     D.combine(vd, failed, both, key_to_functions=key_to_functions)
     ev = bounded.evidence_from_native(nat, [])
     ev["coverage"]["evaluations"] += int(nloc.get("evaluations", 0))
     ev["coverage"]["distinct_nontrivial"] += int(nloc.get("distinct_nontrivial", 0))
+    ev["coverage"]["evaluations"] += int(ndir.get("evaluations", 0))
+    ev["coverage"]["directory_part"] = {k: ndir.get(k) for k in ("evaluations", "distinct_nontrivial", "rule", "bound", "wall_s", "cmd")}
     ev["coverage"]["wrong_node_location_check"] = {k: nloc.get(k) for k in ("evaluations", "distinct_nontrivial", "rule", "bound", "wall_s", "cmd")}
     return vd.finish(bounded.mixed_evidence(ev, covs, BOUNDED_PART, TRUST, tier, UNITS, vd))
